@@ -42,7 +42,7 @@ func init() {
 		Rule: "case = sketch reached by a seeded history (both variants, all 5 store kinds, both signs), (40% with live companions: copies that stay in use, are reweighted on their own and merged with the sketch), then Reweight(w) for dyadic-budgeted w in {a*2^k}: <1, =1, >1; oracle: every bin, the zero bucket and the count equal the model scaled by w exactly, exact sum within the bound, exact min/max bitwise unchanged, and the whole observation equals that of a second real sketch built by adding the same items with weights*w; " +
 			"the hook shows paginated stores holding both buffered and paged indexes at the time of the call. Non-trivial = both sides non-empty and w != 1; distinct = hash of the history and w.",
 		Cases:     core.Scale(80000, 2000000),
-		Mandatory: []string{"oracle.reweight_checks", "oracle.rebuilt_twin_checks", "reweight.lt1", "reweight.gt1", "reweight.eq1", "reweight.near_one", "layout.reweight_with_buffer_and_pages", "reweight.both_sides", "histories_with_live_companions", "oracle.companion_checks"},
+		Mandatory: []string{"oracle.reweight_checks", "oracle.rebuilt_twin_checks", "reweight.lt1", "reweight.gt1", "reweight.eq1", "reweight.near_one", "layout.reweight_with_buffer_and_pages", "reweight.both_sides", "histories_with_live_companions", "oracle.companion_checks", "event.ChangeMapping"},
 		Run:       runC16,
 	})
 }
@@ -688,6 +688,9 @@ func runC16(c *core.Ctx) {
 	h.weights[opClear] = 1
 	h.weights[opRoundTrip] = 1
 	h.weights[opProtoRoundTrip] = 0
+	// identity conversions (equal mapping, scale 1) are exact copies: part of the histories
+	h.identityCM = true
+	h.weights[opChangeMapping] = 2
 	if r.P(0.4) {
 		h.withCompanions()
 		h.weights[opCompReweight] = 3
